@@ -1,11 +1,11 @@
 (* C19 — acyclification realises sigma-separation.
    Unbounded: acy_nodes_edges, acy_acyclic, acy_idempotent_on_acyclic, sigma_sep_dec_reflects.
-   Bounded by kernel computation: sigma_equiv_bounded_3 (ALL directed mixed graphs on <= 3 nodes) and
-   sigma_equiv_bounded_4_directed (all 4096 directed graphs on 4 nodes, no bidirected edges).
-   The unbounded sigma clause (C19.Spec.sigma_equiv_stmt) is stated, not proved. *)
+   Unbounded, one direction of the sigma clause: msep_acy_implies_sigma_sep.
+   Bounded by kernel computation (both directions): sigma_equiv_bounded_3 (ALL directed mixed graphs on <= 3 nodes) and
+   sigma_equiv_bounded_4_le2_bidirected (4 nodes, all 4096 directed layers x all 22 bidirected layers with <= 2 edges). *)
 From Coq Require Import List Arith.
 From PG Require Import Base.ListSet Graph.MGraph Graph.MSep C19.Model C19.Spec C19.Proofs C19.SigmaDec C19.Bounded
-  C19.Bounded_n3 C19.Bounded_n4.
+  C19.Bounded_n3 C19.Bounded_n4 C19.SigmaWalk.
 Import ListNotations.
 
 (* the model's edges are exactly the property's characterisation (strongly connected component = mutual reachability) *)
@@ -35,13 +35,21 @@ Theorem sigma_equiv_bounded_3 : forall n g X Y Z, n <= 3 -> In g (cyc_graphs n) 
 Proof. exact sigma_equiv_bounded_3_prop_proof. Qed.
 Print Assumptions sigma_equiv_bounded_3.
 
-(* all directed graphs (any cycles) on 4 nodes without bidirected edges *)
-Theorem sigma_equiv_bounded_4_directed : forall d X Y Z, In d (subl (ord_pairs 4)) ->
+(* all directed mixed graphs on 4 nodes with ANY directed layer (4096, any cycles) and at most 2 bidirected edges: 90112 graphs *)
+Theorem sigma_equiv_bounded_4_le2_bidirected : forall d b X Y Z,
+  In d (subl (ord_pairs 4)) -> In b (subl (unord_pairs 4)) -> length b <= 2 ->
   (forall x, In x X -> x < 4) -> (forall y, In y Y -> y < 4) -> In Z (sublists (seq 0 4)) ->
   (forall x, In x X -> ~ In x Y /\ ~ In x Z) -> (forall y, In y Y -> ~ In y Z) ->
-  (msep (acy_model (MkG (seq 0 4) d [] [] [])) X Y Z <-> sigma_sep (MkG (seq 0 4) d [] [] []) X Y Z).
-Proof. exact sigma_equiv_bounded_4_directed_prop_proof. Qed.
-Print Assumptions sigma_equiv_bounded_4_directed.
+  (msep (acy_model (MkG (seq 0 4) d b [] [])) X Y Z <-> sigma_sep (MkG (seq 0 4) d b [] [])  X Y Z).
+Proof. exact sigma_equiv_bounded_4_le2_bidirected_prop_proof. Qed.
+Print Assumptions sigma_equiv_bounded_4_le2_bidirected.
+
+(* UNBOUNDED, one direction: a sigma-connecting path of g yields an open walk, hence an m-connecting path, of the acyclification *)
+Theorem msep_acy_implies_sigma_sep : forall g X Y Z, wf g -> U g = [] -> incl X (V g) -> incl Z (V g) ->
+  (forall a, In a X -> ~ In a Y) ->
+  msep (acy_model g) X Y Z -> sigma_sep g X Y Z.
+Proof. exact C19.SigmaWalk.msep_acy_implies_sigma_sep. Qed.
+Print Assumptions msep_acy_implies_sigma_sep.
 
 (* the enumeration covers the class: every edge set over 0..n-1 is, as a set, the edge set of an enumerated graph *)
 Theorem cyc_enumeration_complete : forall n (D0 B0 : list (nat * nat)),
